@@ -5,7 +5,7 @@ from __future__ import annotations
 from .. import terms as tm
 from ..mirror import Mirror
 from ..model import AnalysisError
-from .common import ob, need, call_name, roles, is_lit, lit, resolve_ite_free
+from .common import ob, need, call_name, roles, is_lit, lit, resolve_ite_free, count_form
 from . import common
 from .. import symeval
 from . import c06, c11
@@ -524,6 +524,14 @@ def rule_velfitform(ctx):
     for i, c in enumerate(fits):
         good = c.callee in ("np.linalg.lstsq", "scipy.linalg.lstsq")
         yield ob(R, f, "transcription_velocity.match_notes:fit@%d" % i, good, "the fit is a least-squares solve (%s), defined for constant velocities" % c.callee if good else "the fit is %s: undefined (NaN / rank warning) when all matched estimated velocities are equal, so a perfect copy of a constant-velocity annotation scores 0" % c.callee, node=c.node)
+        # ... and it is made whenever anything was matched: skipping it for "degenerate" sets (one note, constant
+        # velocities) leaves raw MIDI velocities to be compared with the normalised reference
+        extra = []
+        for cc, pp in symeval.pc_conds(c.pc):
+            empty_test = cc.op == "cmp" and cc.a[0] == "==" and any(tm.is_const(z, 0) for z in cc.a[1:]) and any(count_form(z) is not None or (z.op == "attr" and z.a[1] == "size") for z in cc.a[1:]) and any(y.op == "call" and call_name(y) in ("transcription.match_notes", "util.match_events") for y in tm.walk(cc))
+            if not (empty_test and not pp):
+                extra.append(tm.show(cc, 3))
+        yield ob(R, f, "transcription_velocity.match_notes:fit-unconditional@%d" % i, not extra, "the rescaling fit is made for every non-empty matching" if not extra else "the rescaling fit is only made when %s: otherwise the estimated velocities stay unscaled and are compared with the normalised reference velocities" % "; ".join(extra), node=c.node)
 
 
 RULES = [
